@@ -215,13 +215,14 @@ def diff (x1 x2 : List α) (h : α) : List α :=
   let invH := MjNum.ofInt 1 / h
   List.zipWith (fun a b => invH * (b - a)) x1 x2
 
-/-- `clampedDiff(dx, x, x_plus, x_minus, h, nx)` exactly as coded (sensor rows of the control Jacobian); `none` = NULL.
-NOTE the argument order of the centred branch: `diff(dx, x_plus, x_minus, 2*h, nx)`. -/
+/-- `clampedDiff(dx, x, x_plus, x_minus, h, nx)` as coded (sensor rows of the control Jacobian); `none` = NULL.
+The centred branch is `diff(dx, x_minus, x_plus, 2*h, nx)` (since /repo commit 8c58e7e22; before it the two arguments
+were swapped and the centred D matrix had the wrong sign). -/
 def clampedDiff (x : List α) (xPlus xMinus : Option (List α)) (h : α) : List α :=
   match xPlus, xMinus with
   | some p, none => diff x p h
   | none, some m => diff m x h
-  | some p, some m => diff p m (MjNum.ofInt 2 * h)
+  | some p, some m => diff m p (MjNum.ofInt 2 * h)
   | none, none => x.map fun _ => MjNum.ofInt 0
 
 /-- the argument order of `clampedStateDiff` (state rows), on plain vectors (`nq == nv` branch of `stateDiff`) -/
